@@ -109,10 +109,11 @@ func (r *Raft) onVoteRequest(req *voteReq) (rpcResult, error) {
 	// RequestVote requests used for leadership transfer can include
 	// a special flag to indicate this behavior:
 	// "I have permission to disrupt the leader—it told me to!"
-	if !req.transfer && r.leader != 0 {
-		if req.src == r.leader {
-			return success, nil
-		}
+	//
+	// a request from the node we know as leader is not disruptive (it has
+	// given up its leadership itself): it is processed like any other, so
+	// that a granted vote is always recorded
+	if !req.transfer && r.leader != 0 && req.src != r.leader {
 		return leaderKnown, nil
 	}
 
